@@ -38,6 +38,9 @@ pub fn install_quiet_panic_hook() {
             .location()
             .map(|l| format!("{}:{}", l.file().rsplit('/').next().unwrap_or(""), l.line()))
             .unwrap_or_default();
+        if std::env::var_os("DAGSIM_LOUD").is_some() {
+            eprintln!("PANIC {msg} @ {loc}\n{}", std::backtrace::Backtrace::force_capture());
+        }
         LAST_PANIC.with(|p| *p.borrow_mut() = Some(format!("{msg} @ {loc}")));
     }));
 }
